@@ -63,6 +63,7 @@ type route struct {
 }
 
 type fixture struct {
+	name         string
 	wk           *ksim.Worker
 	base         *ksim.World
 	link         *ksim.Link
@@ -71,26 +72,38 @@ type fixture struct {
 	routes       []route
 }
 
-func build(c *core.C) *fixture {
-	wk := ksim.NewWorker(c.T, 2)
+// build creates a world on wk. In the symmetric world both channel ends are channel-0; in the
+// asymmetric one chain B first opens a channel end that never completes, so the transfer channel
+// is channel-0 on A and channel-1 on B (which makes "the escrow of THAT channel" observable).
+func build(c *core.C, wk *ksim.Worker, name string, asym bool) *fixture {
 	w := wk.Root()
 	l := w.SetupClients(0, 1)
 	w.SetupConnection(l, 0)
+	if asym {
+		ksim.MustOK("dangling channel end on B", w.Tx(1, channeltypes.NewMsgChannelOpenInit(transfertypes.PortID, transfertypes.V1, channeltypes.UNORDERED, []string{l.ConnB}, transfertypes.PortID, ksim.Signer)))
+	}
 	ch := w.SetupChannel(l, transfertypes.PortID, transfertypes.PortID, transfertypes.V1, channeltypes.UNORDERED)
 	w.RegisterCounterparties(l)
 	w.Sync(1, l.ClientB, 0)
 	w.Sync(0, l.ClientA, 1)
 	w.Flatten()
-	f := &fixture{wk: wk, base: w, link: l, ch: ch,
+	f := &fixture{name: name, wk: wk, base: w, link: l, ch: ch,
 		userA: sdk.AccAddress([]byte("verif-c33-user-a-000")), userB: sdk.AccAddress([]byte("verif-c33-user-b-000"))}
-	if ch.ChanA != "channel-0" || ch.ChanB != "channel-0" || l.ClientA != "07-tendermint-0" || l.ClientB != "07-tendermint-0" || ch.Version != transfertypes.V1 {
-		c.Broken("unexpected identifiers: channels %s/%s clients %s/%s version %s (the alphabet is written for channel-0 / 07-tendermint-0)", ch.ChanA, ch.ChanB, l.ClientA, l.ClientB, ch.Version)
+	wantB := "channel-0"
+	if asym {
+		wantB = "channel-1"
+	}
+	if ch.ChanA != "channel-0" || ch.ChanB != wantB || l.ClientA != "07-tendermint-0" || l.ClientB != "07-tendermint-0" || ch.Version != transfertypes.V1 {
+		c.Broken("unexpected identifiers in world %s: channels %s/%s clients %s/%s version %s (the alphabet is written for channel-0 / 07-tendermint-0)", name, ch.ChanA, ch.ChanB, l.ClientA, l.ClientB, ch.Version)
 		return nil
 	}
 	f.routes = []route{
 		{Name: "v1", IDA: ch.ChanA, IDB: ch.ChanB},
 		{Name: "v2-alias", V2: true, IDA: ch.ChanA, IDB: ch.ChanB},
-		{Name: "v2-client", V2: true, IDA: l.ClientA, IDB: l.ClientB},
+	}
+	if !asym {
+		// the client pair is the same in both worlds
+		f.routes = append(f.routes, route{Name: "v2-client", V2: true, IDA: l.ClientA, IDB: l.ClientB})
 	}
 	return f
 }
@@ -201,6 +214,7 @@ func recvError(evs []abci.Event) string {
 // ---- one round trip -----------------------------------------------------------------------------
 
 type outcome struct {
+	World   string `json:"world"`
 	Route   string `json:"route"`
 	Base    string `json:"base"`
 	Trivial string `json:"trivial,omitempty"` // why the base is outside the quantifier
@@ -291,7 +305,7 @@ func (f *fixture) ack(w *ksim.World, rt route, src int, s sent, app []byte, v2ac
 }
 
 func (f *fixture) roundTrip(rt route, base string) outcome {
-	o := outcome{Route: rt.Name, Base: base}
+	o := outcome{World: f.name, Route: rt.Name, Base: base}
 	w := f.base.Fork()
 	if err := sdk.ValidateDenom(base); err != nil {
 		// no account can hold such a coin: outside the quantifier. For the record, what the origin's
@@ -451,7 +465,7 @@ func (f *fixture) report(c *core.C, o outcome) {
 		fam = "no-forward"
 	}
 	key := fmt.Sprintf("%s/%s/%s/base~%s", fam, o.Route, o.Leg, shape(o.Base))
-	text := fmt.Sprintf("base denomination %q was accepted by the origin chain A (%s) but the round trip failed at leg %s: %s", o.Base, o.Route, o.Leg, o.Err)
+	text := fmt.Sprintf("base denomination %q was accepted by the origin chain A (%s, world %s: channel %s on A / %s on B) but the round trip failed at leg %s: %s", o.Base, o.Route, f.name, f.ch.ChanA, f.ch.ChanB, o.Leg, o.Err)
 	if o.Voucher != "" {
 		text += fmt.Sprintf(" (B credited %s = %q)", o.Voucher, o.Path)
 	}
@@ -484,9 +498,17 @@ func bases(c *core.C) []string {
 }
 
 func run(c *core.C) {
-	f := build(c)
-	if f == nil {
-		return
+	wk := ksim.NewWorker(c.T, 2)
+	var worlds []*fixture
+	for _, wd := range []struct {
+		name string
+		asym bool
+	}{{"sym", false}, {"asym", true}} {
+		f := build(c, wk, wd.name, wd.asym)
+		if f == nil {
+			return
+		}
+		worlds = append(worlds, f)
 	}
 	if c.Replay != "" {
 		var o outcome
@@ -494,12 +516,14 @@ func run(c *core.C) {
 			c.Broken("replay: %v", err)
 			return
 		}
-		for _, rt := range f.routes {
-			if rt.Name == o.Route {
-				res := f.roundTrip(rt, o.Base)
-				fmt.Printf("replay %s base=%q: trivial=%q leg=%q err=%q\n", rt.Name, o.Base, res.Trivial, res.Leg, res.Err)
-				f.report(c, res)
-				c.Sample(res)
+		for _, f := range worlds {
+			for _, rt := range f.routes {
+				if rt.Name == o.Route && f.name == o.World {
+					res := f.roundTrip(rt, o.Base)
+					fmt.Printf("replay %s/%s base=%q: trivial=%q leg=%q err=%q\n", f.name, rt.Name, o.Base, res.Trivial, res.Leg, res.Err)
+					f.report(c, res)
+					c.Sample(res)
+				}
 			}
 		}
 		c.Set("evaluations", 1)
@@ -512,41 +536,44 @@ func run(c *core.C) {
 	seen := map[string]bool{}
 	exhaustive := true
 loop:
-	for _, b := range all {
-		for _, rt := range f.routes {
-			if c.TimeUp() {
-				exhaustive = false
-				break loop
-			}
-			if seen[rt.Name+"|"+b] {
-				continue
-			}
-			seen[rt.Name+"|"+b] = true
-			evals++
-			o := f.roundTrip(rt, b)
-			if o.Broken != "" {
-				c.Broken("%s base %q: %s", rt.Name, b, o.Broken)
-				return
-			}
-			if o.Trivial != "" {
-				c.Hist("outside_quantifier", rt.Name+":"+o.Trivial)
-				if o.Err != "" {
-					c.Hist("origin_handler_panics_on_non_sdk_denoms(info)", rt.Name+": "+o.Err)
+	for _, f := range worlds {
+		for _, b := range all {
+			for _, rt := range f.routes {
+				if c.TimeUp() {
+					exhaustive = false
+					break loop
 				}
-				continue
-			}
-			nontrivial++
-			c.Hist("accepted_by_segments", fmt.Sprintf("%s:%d", rt.Name, strings.Count(b, "/")+1))
-			if o.Leg == "" {
-				held++
-				c.Hist("round_trips_completed", rt.Name)
-				if held%7 == 1 {
-					c.Sample(o)
+				name := f.name + "/" + rt.Name
+				if seen[name+"|"+b] {
+					continue
 				}
-			} else {
-				c.Hist("round_trips_failed", rt.Name+":"+o.Leg)
-				c.Hist("failed_shapes", rt.Name+":"+o.Leg+":"+shape(b))
-				f.report(c, o)
+				seen[name+"|"+b] = true
+				evals++
+				o := f.roundTrip(rt, b)
+				if o.Broken != "" {
+					c.Broken("%s base %q: %s", name, b, o.Broken)
+					return
+				}
+				if o.Trivial != "" {
+					c.Hist("outside_quantifier", name+":"+o.Trivial)
+					if o.Err != "" {
+						c.Hist("origin_handler_panics_on_non_sdk_denoms(info)", name+": "+o.Err)
+					}
+					continue
+				}
+				nontrivial++
+				c.Hist("accepted_by_segments", fmt.Sprintf("%s:%d", name, strings.Count(b, "/")+1))
+				if o.Leg == "" {
+					held++
+					c.Hist("round_trips_completed", name)
+					if held%11 == 1 {
+						c.Sample(o)
+					}
+				} else {
+					c.Hist("round_trips_failed", name+":"+o.Leg)
+					c.Hist("failed_shapes", name+":"+o.Leg+":"+shape(b))
+					f.report(c, o)
+				}
 			}
 		}
 	}
@@ -554,10 +581,11 @@ loop:
 	c.Set("distinct_nontrivial", nontrivial)
 	c.Set("round_trips_held", held)
 	c.Set("bases", len(all))
-	c.Set("routes", len(f.routes))
+	c.Set("worlds", "sym: transfer channel is channel-0 on both chains; asym: channel-0 on A, channel-1 on B")
 	c.Set("exhaustive", exhaustive)
-	c.Set("rule", "every '/'-joined string of 1..2 (quick; plus a fixed list of 3-segment strings) or 1..3 (thorough) segments over {uatom, transfer, channel-0, channel-7, 07-tendermint-0, ibc, x} as a base denomination x route in {v1 MsgTransfer over channel-0, v2 MsgSendPacket over the alias channel-0, v2 MsgSendPacket over 07-tendermint-0}; a case is non-trivial (inside the quantifier) when the string is an SDK denomination AND the origin chain's real handler accepts the first send; evaluations = (base, route) cases, distinct_nontrivial = distinct cases whose round trip was executed")
+	c.Set("rule", "every '/'-joined string of 1..2 (quick; plus a fixed list of 3-segment strings) or 1..3 (thorough) segments over {uatom, transfer, channel-0, channel-7, 07-tendermint-0, ibc, x} as a base denomination x route in {v1 MsgTransfer over the channel, v2 MsgSendPacket over the channel's alias, v2 MsgSendPacket over 07-tendermint-0} x world in {sym, asym}; a case is non-trivial (inside the quantifier) when the string is an SDK denomination AND the origin chain's real handler accepts the first send; evaluations = (world, route, base) cases, distinct_nontrivial = distinct cases whose round trip was executed")
 	c.Assume("origin acceptance = sdk.ValidateDenom (needed to mint the coin) + MsgTransfer.ValidateBasic + the Transfer handler (v1), or MsgSendPacket.ValidateBasic + the transfer application's OnSendPacket (v2), all on chain A")
 	c.Assume("the return leg sends the denomination the receiver was credited with on B as read from B's bank store; for v2 the payload path is the one B's transfer keeper records for that voucher")
 	c.Assume("an honest relayer: each packet and acknowledgement relayed once with a fresh proof; 5 units, receiver of the return leg = the original sender")
+	c.Assume("violation keys abstract the base denomination to its shape (first segment transfer|P, identifier-like inner segments literally, last segment B) and do not name the world: a shape failing at the same leg in both worlds is one finding")
 }
